@@ -1429,6 +1429,12 @@ def f_isclose(a, b, rtol=1e-05, atol=1e-08, equal_nan=False):
     return numpy.absolute(a - b) <= (atol + rtol * numpy.absolute(b))
 
 
+def f_meshgrid(*xi, **kw):
+    arrs = [_sa(x) for x in xi]
+    res = numpy.meshgrid(*[raw(a) for a in arrs], **kw)
+    return type(res)(SymArray(r, a._vd) for r, a in zip(res, arrs)) if isinstance(res, tuple) else [SymArray(r, a._vd) for r, a in zip(res, arrs)]
+
+
 def f_array_equal(a, b, **kw):
     a = _sa(a)
     b = _sa(b)
@@ -1596,7 +1602,7 @@ _FUNCS = {
     numpy.linalg.norm: f_norm, numpy.median: f_median, numpy.allclose: f_allclose,
     numpy.array_equal: f_array_equal, numpy.diag: f_diag, numpy.einsum: f_einsum,
     numpy.triu: f_triu, numpy.tril: f_tril, numpy.count_nonzero: f_count_nonzero,
-    numpy.searchsorted: f_searchsorted, numpy.isclose: f_isclose,
+    numpy.searchsorted: f_searchsorted, numpy.isclose: f_isclose, numpy.meshgrid: f_meshgrid,
 }
 
 
